@@ -53,9 +53,19 @@ type Contract struct {
 	HdrRecv  string
 	HdrName  string
 	Auto     bool
+	Callbacks map[string]*Callback
+	AllocBound []*Clause // `allocbound e`: every make() of the function allocates at most e bytes
+	Iface    bool // interface-method contract, fanned out to implementers
+	Derived  string // key of the interface contract this one was copied from
 	Opaque   bool
 	Ghost    bool    // ghost func: a sequence of contract applications (lemma over contracts)
 	Calls    []*GhostCall
+}
+
+// Callback is the contract of a function-typed parameter: obligations at each call of it.
+type Callback struct {
+	Params   []string
+	Requires []*Clause
 }
 
 // GhostCall is one step of a ghost function: `call [x :=] f(args)`.
@@ -97,7 +107,7 @@ type ContractSet struct {
 	Files  []string
 }
 
-var clauseKw = map[string]bool{"auto": true, "func": true, "pure": true, "opaque": true, "ghost": true, "call": true, "assume": true, "lemma": true, "arith": true, "requires": true,
+var clauseKw = map[string]bool{"allocbound": true, "callback": true, "auto": true, "interface": true, "func": true, "pure": true, "opaque": true, "ghost": true, "call": true, "assume": true, "lemma": true, "arith": true, "requires": true,
 	"ensures": true, "loop": true, "closure": true, "modifies": true, "claims": true, "cover": true, "inline": true,
 	"replay": true, "props": true, "split": true, "hint": true, "end": true}
 
@@ -204,7 +214,7 @@ func (cs *ContractSet) loadFile(path, pkg string) error {
 			continue
 		}
 		switch kw {
-		case "func", "pure", "assume", "opaque", "ghost":
+		case "func", "pure", "assume", "opaque", "ghost", "interface":
 			c := &Contract{PkgPath: pkg, Loops: map[int][]*Clause{}, Closures: map[int]*Contract{}, Claims: map[string]bool{},
 				Inline: map[string]bool{}, File: path, Line: l.line, Header: l.text}
 			hdr := l.text
@@ -219,6 +229,9 @@ func (cs *ContractSet) loadFile(path, pkg string) error {
 					c.Opaque = true
 				} else if f[0] == "ghost" {
 					c.Ghost = true
+				} else if f[0] == "interface" {
+					// contract on an interface method: used at invoke sites and checked on every implementer
+					c.Iface = true
 				} else if f[0] == "assume" {
 					c.Assumed = true
 				} else if f[0] == "func" {
@@ -466,6 +479,44 @@ func addClause(c *Contract, text string, line int) error {
 			return err
 		}
 		c.Splits = append(c.Splits, cl)
+	case "allocbound":
+		cl, err := mk(rest)
+		if err != nil {
+			return err
+		}
+		c.AllocBound = append(c.AllocBound, cl)
+		c.Claims["alloc"] = true
+	case "callback":
+		// `callback f(a, b): requires P` — obligation at every call of the function-typed parameter f
+		i := strings.Index(rest, "(")
+		j := matchParen(rest, i)
+		if i < 0 || j < 0 {
+			return fmt.Errorf("callback name(params): requires P")
+		}
+		name := strings.TrimSpace(rest[:i])
+		tail := strings.TrimSpace(rest[j+1:])
+		tail = strings.TrimSpace(strings.TrimPrefix(tail, ":"))
+		if !strings.HasPrefix(tail, "requires") {
+			return fmt.Errorf("callback %s: expected `requires`", name)
+		}
+		cl, err := mk(strings.TrimSpace(tail[len("requires"):]))
+		if err != nil {
+			return err
+		}
+		if c.Callbacks == nil {
+			c.Callbacks = map[string]*Callback{}
+		}
+		cb := c.Callbacks[name]
+		if cb == nil {
+			cb = &Callback{}
+			for _, p := range splitTop(rest[i+1:j], ',') {
+				if f := strings.Fields(p); len(f) > 0 {
+					cb.Params = append(cb.Params, f[0])
+				}
+			}
+			c.Callbacks[name] = cb
+		}
+		cb.Requires = append(cb.Requires, cl)
 	case "call":
 		gc := &GhostCall{Line: line, Text: rest}
 		body := rest
